@@ -282,6 +282,27 @@ def run(tier):
                 continue
             if not (a == b == c):
                 failures.append(dict(kind='program', summary=f'copy(freeze=True) of a {st} stage above a per-epoch reshuffle (n={n}, seed {seed}) is not frozen: {a} / {b} / {c}'[:600], config=dict(stage=st, n=n, seed=seed)))
+            elif st != 'cycle':
+                # copies of the frozen copy, and consumers that copy their input per epoch, taken AFTER the source pipeline moved on: they
+                # all keep the frozen order
+                try:
+                    for _e in range(2):
+                        for _x in _it.islice(d, None):
+                            pass
+                    later = {'copy()': fz.copy(), 'copy(freeze=True)': fz.copy(freeze=True), 'copy().copy()': fz.copy().copy(), 'lazy apply': fz.apply(lambda x: x, lazy=True)}
+                    try:
+                        if fz.indexable and len(fz) >= 0:
+                            later['catch()'] = fz.catch()           # (a catching stage needs position access and a length)
+                    except Exception:
+                        pass
+                    for nm, obj2 in later.items():
+                        got2 = [repr(x) for x in obj2]
+                        if got2 != a:
+                            failures.append(dict(kind='program', summary=f'{nm} of the frozen copy of a {st} stage above a per-epoch reshuffle (n={n}, seed {seed}), taken after the source pipeline went through two more epochs: {got2}; the frozen order is {a}'[:600],
+                                                 config=dict(stage=st, n=n, seed=seed)))
+                            break
+                except Exception as e:
+                    failures.append(dict(kind='program', summary=f'copying the frozen copy of a {st} stage above a reshuffle raised {type(e).__name__}: {e}'[:300], config=dict(stage=st, n=n, seed=seed)))
             # copy() WITHOUT arguments is not a frozen copy: per-epoch stages below keep drawing new orders
             if st not in ('local', 'cycle', 'prefetch1', 'parmap'):
                 try:
